@@ -30,3 +30,29 @@ func VerifFormulaFuncNames() []string {
 	}
 	return names
 }
+
+// VerifCfbWrite builds a compound file with the given streams (in the given
+// order), as Encrypt does with EncryptionInfo and EncryptedPackage.
+func VerifCfbWrite(names []string, contents [][]byte) []byte {
+	compoundFile := &cfb{
+		paths:   []string{"Root Entry/"},
+		sectors: []sector{{name: "Root Entry", typeID: 5}},
+	}
+	for i := range names {
+		compoundFile.put(names[i], contents[i])
+	}
+	return compoundFile.write()
+}
+
+// VerifCfbLocate returns the sector layout computed for streams of the given sizes.
+func VerifCfbLocate(names []string, sizes []int) []int {
+	compoundFile := &cfb{
+		paths:   []string{"Root Entry/"},
+		sectors: []sector{{name: "Root Entry", typeID: 5}},
+	}
+	for i := range names {
+		compoundFile.put(names[i], make([]byte, sizes[i]))
+	}
+	compoundFile.prepare()
+	return compoundFile.locate()
+}
